@@ -262,37 +262,49 @@ def x86SizeString (size : Nat) : Str :=
 def clearBit (f bit : Nat) : Nat := if hasBit f bit then f - bit else f
 
 open AsmjitVerif.Gen.FormatTabs in
-/-- the memory branch of `x86::FormatterInternal::format_operand` -/
+/-- segment override: `seg != SReg::kIdNone && seg < SReg::kIdCount` (kIdCount = 7), name read at the hard-coded pool offset 224 -/
+def x86MemSegText (m : X86Mem) : Str :=
+  if m.seg ≠ 0 ∧ m.seg < 7 then cstrAt x86NameStrings (224 + m.seg * 4) ++ [':'] else []
+
+/-- `switch (m.addr_type())` -/
+def x86MemAddrText (m : X86Mem) : Str := match m.addrType with | 1 => "abs ".toList | 2 => "rel ".toList | _ => []
+
+/-- `if (m.has_base())`: label or (`&` for a register home, kRegCasts masked out) register -/
+def x86MemBaseText (flags : Nat) (env : Env) (m : X86Mem) : Str :=
+  match m.base with
+  | .none => []
+  | .label id => formatLabel env id
+  | .reg t id => if m.home then '&' :: x86FormatRegister (clearBit flags ffRegCasts) env t id else x86FormatRegister flags env t id
+
+/-- `op_sign` after the base block -/
+def x86MemSignAfterBase (m : X86Mem) : Option Char := if m.base ≠ MemBase.none then some '+' else none
+
+/-- `if (m.has_index())`: `op_sign`, register, `*%u` of `1 << shift` -/
+def x86MemIndexText (flags : Nat) (env : Env) (m : X86Mem) : Str :=
+  match m.index with
+  | some (t, id) =>
+    (match x86MemSignAfterBase m with | some c => [c] | none => []) ++ x86FormatRegister flags env t id ++
+      (if m.shift ≠ 0 then '*' :: uintStr (1 <<< m.shift) else [])
+  | none => []
+
+/-- `op_sign` after the index block -/
+def x86MemSignAfterIndex (m : X86Mem) : Option Char := if m.index.isSome then some '+' else x86MemSignAfterBase m
+
+/-- `if (off || !m.has_base_or_index())`: sign (`-` and negation for negative values), `0x` + hex or decimal; `off = uint64_t(m.offset())` -/
+def x86MemDispTextOf (flags : Nat) (m : X86Mem) (off : Nat) : Str :=
+  if off ≠ 0 ∨ (m.base = MemBase.none ∧ m.index = none) then
+    (match (if off ≥ two63 then some '-' else x86MemSignAfterIndex m) with | some c => [c] | none => []) ++
+      (if hasBit flags ffHexOffsets ∧ (if off ≥ two63 then two64 - off else off) > 9
+       then ['0', 'x'] ++ uintStr (if off ≥ two63 then two64 - off else off) 16
+       else uintStr (if off ≥ two63 then two64 - off else off) 10)
+  else []
+
+def x86MemDispText (flags : Nat) (m : X86Mem) : Str := x86MemDispTextOf flags m (effOff (m.base ≠ MemBase.none) m.off)
+
+/-- the memory branch of `x86::FormatterInternal::format_operand`: every block appends to `sb` in this order -/
 def x86FormatMem (flags : Nat) (env : Env) (m : X86Mem) : Str :=
-  let sb := x86SizeString m.size
-  -- `seg != SReg::kIdNone && seg < SReg::kIdCount` (kIdCount = 7), name read at the hard-coded pool offset 224
-  let sb := if m.seg ≠ 0 ∧ m.seg < 7 then sb ++ cstrAt x86NameStrings (224 + m.seg * 4) ++ [':'] else sb
-  let sb := sb ++ ['[']
-  let sb := sb ++ (match m.addrType with | 1 => "abs ".toList | 2 => "rel ".toList | _ => [])
-  let hasBase := m.base ≠ MemBase.none
-  let (sb, opSign) : Str × Option Char :=
-    match m.base with
-    | .none => (sb, none)
-    | .label id => (sb ++ formatLabel env id, some '+')
-    | .reg t id =>
-      if m.home then (sb ++ ['&'] ++ x86FormatRegister (clearBit flags ffRegCasts) env t id, some '+')
-      else (sb ++ x86FormatRegister flags env t id, some '+')
-  let (sb, opSign) : Str × Option Char :=
-    match m.index with
-    | some (t, id) =>
-      let sb := match opSign with | some c => sb ++ [c] | none => sb
-      let sb := sb ++ x86FormatRegister flags env t id
-      let sb := if m.shift ≠ 0 then sb ++ ['*'] ++ uintStr (1 <<< m.shift) else sb
-      (sb, some '+')
-    | none => (sb, opSign)
-  let off := effOff hasBase m.off
-  let sb :=
-    if off ≠ 0 ∨ (!hasBase && m.index.isNone) then
-      let (opSign, off) := if off ≥ two63 then (some '-', two64 - off) else (opSign, off)
-      let sb := match opSign with | some c => sb ++ [c] | none => sb
-      if hasBit flags ffHexOffsets ∧ off > 9 then sb ++ ['0', 'x'] ++ uintStr off 16 else sb ++ uintStr off 10
-    else sb
-  sb ++ [']']
+  x86SizeString m.size ++ x86MemSegText m ++ ['['] ++ x86MemAddrText m ++ x86MemBaseText flags env m ++
+    x86MemIndexText flags env m ++ x86MemDispText flags m ++ [']']
 
 /-- the immediate branch (x86 and, after the predicate, AArch64) -/
 def formatImmValue (flags : Nat) (u : Nat) : Str :=
@@ -468,34 +480,37 @@ def armRegListLoop (env : Env) (type : Nat) : Nat → Nat → Bool → Str
 def armFormatRegList (env : Env) (type mask : Nat) : Str :=
   ['{'] ++ armRegListLoop env type 33 (mask % two32) true ++ ['}']
 
-/-- the memory branch of `arm::FormatterInternal::format_operand` -/
+/-- `if (m.has_base()) … else if (m.has_index() || m.has_offset()) "<None>"` -/
+def a64MemBaseText (env : Env) (m : A64Mem) : Str :=
+  match m.base with
+  | .label id => formatLabel env id
+  | .reg t id => if m.home then '&' :: armFormatRegister env t id else armFormatRegister env t id
+  | .none => if m.index.isSome ∨ effOff false m.off ≠ 0 then "<None>".toList else []
+
+/-- `if (m.has_index()) ", " + register` -/
+def a64MemIndexText (env : Env) (m : A64Mem) : Str :=
+  match m.index with | some (t, id) => ", ".toList ++ armFormatRegister env t id | none => []
+
+/-- the offset: a post-index operand always shows it (repaired code, fixes/C20-2.patch; the pinned code printed `[x7]` for the
+    post-index form with offset 0, the same text as the plain offset form) -/
+def a64MemOffTextOf (flags : Nat) (m : A64Mem) (off : Nat) : Str :=
+  if off ≠ 0 ∨ (m.mode = 2 ∧ m.index.isNone) then
+    ", ".toList ++ (if hasBit flags ffHexOffsets ∧ off > 9 then ['0', 'x'] ++ uintStr off 16 else intStr off)
+  else []
+
+def a64MemOffText (flags : Nat) (m : A64Mem) : Str := a64MemOffTextOf flags m (effOff (m.base ≠ MemBase.none) m.off)
+
+/-- the extend/shift operation is printed whenever it is not the default `lsl 0` (repaired code, fixes/C20-1.patch; the pinned
+    code printed it only when the shift amount was non-zero and so lost `uxtw/sxtw/sxtx` with amount 0) -/
+def a64MemShiftText (m : A64Mem) : Str :=
+  if m.shift ≠ 0 ∨ (m.index.isSome ∧ m.mode = 0 ∧ m.shiftOp ≠ 0) then
+    [' '] ++ (if m.mode = 0 then armShiftOp m.shiftOp else []) ++ (if m.shift ≠ 0 then [' '] ++ uintStr m.shift else [])
+  else []
+
+/-- the memory branch of `arm::FormatterInternal::format_operand`: the blocks append to `sb` in this order -/
 def a64FormatMem (flags : Nat) (env : Env) (m : A64Mem) : Str :=
-  let hasBase := m.base ≠ MemBase.none
-  let off := effOff hasBase m.off
-  let sb : Str := ['[']
-  let sb :=
-    match m.base with
-    | .label id => sb ++ formatLabel env id
-    | .reg t id => if m.home then sb ++ ['&'] ++ armFormatRegister env t id else sb ++ armFormatRegister env t id
-    | .none => if m.index.isSome ∨ off ≠ 0 then sb ++ "<None>".toList else sb
-  let sb := if m.mode = 2 then sb ++ [']'] else sb
-  let sb := match m.index with | some (t, id) => sb ++ ", ".toList ++ armFormatRegister env t id | none => sb
-  -- a post-index operand always shows its offset (repaired code, fixes/C20-2.patch; the pinned code printed `[x7]` for
-  -- the post-index form with offset 0, the same text as the plain offset form)
-  let sb :=
-    if off ≠ 0 ∨ (m.mode = 2 ∧ m.index.isNone) then
-      sb ++ ", ".toList ++ (if hasBit flags ffHexOffsets ∧ off > 9 then ['0', 'x'] ++ uintStr off 16 else intStr off)
-    else sb
-  -- the extend/shift operation is printed whenever it is not the default `lsl 0` (repaired code, fixes/C20-1.patch;
-  -- the pinned code printed it only when the shift amount was non-zero and so lost `uxtw/sxtw/sxtx` with amount 0)
-  let sb :=
-    if m.shift ≠ 0 ∨ (m.index.isSome ∧ m.mode = 0 ∧ m.shiftOp ≠ 0) then
-      let sb := sb ++ [' ']
-      let sb := if m.mode = 0 then sb ++ armShiftOp m.shiftOp else sb
-      if m.shift ≠ 0 then sb ++ [' '] ++ uintStr m.shift else sb
-    else sb
-  let sb := if m.mode ≠ 2 then sb ++ [']'] else sb
-  if m.mode = 1 then sb ++ ['!'] else sb
+  ['['] ++ a64MemBaseText env m ++ (if m.mode = 2 then [']'] else []) ++ a64MemIndexText env m ++ a64MemOffText flags m ++
+    a64MemShiftText m ++ (if m.mode ≠ 2 then [']'] else []) ++ (if m.mode = 1 then ['!'] else [])
 
 /-- `arm::FormatterInternal::format_operand` -/
 def a64FormatOperand (flags : Nat) (env : Env) : Operand → Str
